@@ -8,6 +8,11 @@ from .report import main_wrapper
 
 
 def main():
+    import warnings
+    warnings.simplefilter("ignore", RuntimeWarning)
+    import logging
+    logging.getLogger("concurrent.futures").setLevel(logging.CRITICAL)
+    logging.getLogger("asyncio").setLevel(logging.CRITICAL)      # un-awaited coroutines of deliberately failed requests
     ap = argparse.ArgumentParser()
     ap.add_argument("prop")
     ap.add_argument("path", nargs="?")
